@@ -131,12 +131,13 @@ def is_prefix(p, c):
 
 # ---- bridging to ISLa (kept here so every check converts the same way)
 
-def to_dt(t, keep_ids=True):
+def to_dt(t, keep_ids=True, bump=True):
+    """bump=False leaves ISLa's id counter alone (C12 uses it to put caller-supplied ids just ahead of the counter on purpose)"""
     from isla.derivation_tree import DerivationTree as DT
 
-    ch = None if t[1] is None else [to_dt(c, keep_ids) for c in t[1]]
+    ch = None if t[1] is None else [to_dt(c, keep_ids, bump) for c in t[1]]
     i = tid(t) if keep_ids else None
-    if i is not None and i >= DT.next_id:
+    if bump and i is not None and i >= DT.next_id:
         # nodes ISLa creates later must not reuse an identity given out here (DerivationTree.from_json does the same)
         DT.next_id = i + 1
     return DT(t[0], ch, id=i)
